@@ -328,7 +328,10 @@ def run_case(case: dict[str, Any]) -> dict[str, Any]:
                               and rets[c['seq']]['outcome'] == 'ok' and not rets[c['seq']].get('stopped_flag')}
                 req = [h for h in del_handlers if not (specs[h].get('opts') or {}).get('optional') and matches(specs[h], labels)]
                 req += [h for h in bg_handlers if matches(specs[h], labels) and h not in exited_own]
-                if bool(req) != kopf_fin(body):
+                # a daemon that has exited on its own still "matches" the object; nothing re-evaluates the finalizer until the next event of
+                # the object (and then it is released): both states are acceptable for a live object in that case
+                req_loose = req + [h for h in bg_handlers if matches(specs[h], labels) and h in exited_own]
+                if bool(req) != kopf_fin(body) and bool(req_loose) != kopf_fin(body):
                     viol.append({'mech': 'finalizer-presence', 'msg': f"{uid}: at quiescence the framework's finalizer is {'present' if kopf_fin(body) else 'absent'} although "
                                  f"{'handlers ' + str(req) + ' require it' if req else 'no handler requires it'}", 'witness': {'labels': labels, 'finalizers': body['metadata'].get('finalizers')}})
     # ---- change handlers never run before the finalizer is in place (when it is required for the view they run on)
